@@ -165,6 +165,36 @@ func checkC04(c *Ctx) {
 			if _, has := got["root"]; has {
 				wrong = append(wrong, "root(set on a child)")
 			}
+			// constructor agreement: whatever the root constructor configures on the root scope is also
+			// given to a child (from the parent) - a field added to the root constructor only leaves
+			// derived scopes with its zero value
+			if rootCtor := c.fn("", "", "newRootScope"); rootCtor != nil {
+				rootOnly := map[string]bool{"root": true, "status": true}
+				var rootAlloc *ssa.Alloc
+				instrsOf(rootCtor, func(in ssa.Instruction) {
+					if al, ok := in.(*ssa.Alloc); ok && al.Heap && deref(al.Type()) == types.Type(scopeT) {
+						rootAlloc = al
+					}
+				})
+				if rootAlloc != nil {
+					reported := map[string]bool{}
+					instrsOf(rootCtor, func(in ssa.Instruction) {
+						st, isSt := in.(*ssa.Store)
+						if !isSt {
+							return
+						}
+						fa, isFA := st.Addr.(*ssa.FieldAddr)
+						if !isFA || canon(fa.X) != ssa.Value(rootAlloc) {
+							return
+						}
+						n := structFieldOf(fa.X.Type(), fa.Field).Name()
+						if _, has := got[n]; !has && !rootOnly[n] && !reported[n] {
+							reported[n] = true
+							wrong = append(wrong, n+"(configured on the root only)")
+						}
+					})
+				}
+			}
 			sort.Strings(wrong)
 			c.check(len(wrong) == 0, "O2 inheritance", key, child.Pos(), "child fields come from their stated sources (13 fields)",
 				fmt.Sprintf("child scope field(s) %v do not come from their stated source (parent's field of the same name; prefix: the computed prefix; tags: mergeRightTags(parent.tags, copyAndSanitizeMap(tags))): metrics of derived scopes are delivered under the wrong name, tags, separator or to the wrong reporter", wrong))
